@@ -44,8 +44,11 @@ func lex(src []byte) ([]tk, bool) {
 
 // toksIn: tokens lying inside [start,end), EOF excluded.
 func toksIn(toks []tk, start, end int) []tk {
+	// tokens are in source order and do not overlap: those inside [start,end) are one
+	// run, found by binary search (bodies of thousands of items are compared item by item)
 	var out []tk
-	for _, t := range toks {
+	for i := tokLowerBound(toks, start); i < len(toks) && toks[i].Start < end; i++ {
+		t := toks[i]
 		if t.Type == hclsyntax.TokenEOF {
 			continue
 		}
